@@ -705,7 +705,7 @@ func TestConcurrentUse(t *testing.T) {
 	rec.SetRule(rule)
 	rec.Assume("goroutine interleavings are sampled by repetition, not enumerated: a failure that needs one specific interleaving can be missed")
 	g := genScenario()
-	rec.Check(t, "scenario", ev.N(16, 400), func(rt *rapid.T) {
+	rec.Check(t, "scenario", ev.N(24, 400), func(rt *rapid.T) {
 		s := g.Draw(rt, "scenario")
 		rec.Begin("scenario", s)
 		rec.Report(rt, "scenario", s, run(s, rec))
